@@ -600,7 +600,11 @@ def _split_top(s: str) -> list:
 
 def sig_sha(f: dict) -> str:
     """hash of a function's source-level signature (parameter names and types before rule T1, return type)"""
-    return hashlib.sha256(json.dumps([[p["name"], p.get("orig_ty", p["ty"])] for p in f["params"]] + [f.get("ret")]).encode()).hexdigest()[:16]
+    return hashlib.sha256(json.dumps(sorted([p["name"], p.get("orig_ty", p["ty"])] for p in f["params"]) + [f.get("ret")]).encode()).hexdigest()[:16]
+
+
+def sig_params(f: dict) -> list:
+    return [[p["name"], p.get("orig_ty", p["ty"])] for p in f["params"]]
 
 
 def inline_new_helpers(tr: dict, specs: dict, locked_fns: set, force: set = frozenset()) -> list:
@@ -676,7 +680,7 @@ def inline_new_helpers(tr: dict, specs: dict, locked_fns: set, force: set = froz
                 g["body"] = body
                 g["callees"] = sorted((set(g["callees"]) - ({k} if not re.search(pat, body) else set())) | set(cand.get("callees") or []))
                 g["n_loops"] = g.get("n_loops", 0)
-                notes.append(f"{k} ({'signature changed, contract dropped' if k in force else 'new, no contract'}) inlined into {g['key']}")
+                notes.append(f"{k} ({'contract dropped' if k in force else 'new, no contract'}) inlined into {g['key']}")
         if ok_all:
             tr["fns"] = [f for f in fns if f is not cand]
         else:
@@ -804,7 +808,7 @@ class Assembled:
         self.translation = {}
 
 
-def assemble(unit: dict, scratch: str, passname="A") -> Assembled:
+def assemble(unit: dict, scratch: str, passname="A", drop_contracts=frozenset()) -> Assembled:
     job = {k: unit[k] for k in ("files", "fns", "exclude_fns", "aliases", "rename_calls", "extern_effectful", "extern_pure",
                                 "force_effectful", "native_arith", "rename_fns", "exclude_fn_prefixes") if k in unit}
     job["root"] = REPO
@@ -863,7 +867,30 @@ def assemble(unit: dict, scratch: str, passname="A") -> Assembled:
             if l.startswith("sig:"):
                 k_, h_ = l.strip()[4:].rsplit(":", 1)
                 locked_sigs[k_] = h_
-    sig_changed = {f["key"] for f in tr["fns"] if f["key"] in locked_sigs and f["key"] in specs and locked_sigs[f["key"]] != sig_sha(f)}
+    locked_params = {}
+    if os.path.exists(lockp):
+        for l in open(lockp):
+            if l.startswith("sigp:"):
+                k_, j_ = l.strip()[5:].split(":[", 1)
+                locked_params[k_] = json.loads("[" + j_)
+    sig_changed = set()
+    param_renames = {}
+    for f in tr["fns"]:
+        k_ = f["key"]
+        if k_ in locked_sigs and k_ in specs and locked_sigs[k_] != sig_sha(f) and not os.environ.get("VERIF_RELOCK"):
+            oldp, newp = locked_params.get(k_), sig_params(f)
+            if oldp and len(oldp) == len(newp) and [a[1] for a in oldp] == [b[1] for b in newp]:
+                # same types in the same order, only names differ: a pure parameter rename - the contract and the ghost
+                # annotations follow it
+                rm_ = {a[0]: b[0] for a, b in zip(oldp, newp) if a[0] != b[0]}
+                if rm_ and len(set(rm_.values())) == len(rm_) and not (set(rm_.values()) & {a[0] for a in oldp}):
+                    sp_ = rename_spec(specs[k_], rm_)
+                    sp_.contract = re.sub(r"\b(%s)\b" % "|".join(re.escape(x) for x in rm_), lambda mo: rm_[mo.group(1)], specs[k_].contract)
+                    specs[k_] = sp_
+                    param_renames[k_] = rm_
+                    continue
+            sig_changed.add(k_)
+    sig_changed |= {k_ for k_ in drop_contracts if k_ in specs}
     dropped_contracts = []
     for k_ in sorted(sig_changed):
         labs_ = re.findall(r"//@\s*(\S+)", specs[k_].contract)
@@ -960,6 +987,7 @@ def assemble(unit: dict, scratch: str, passname="A") -> Assembled:
     asm.lost_hints, asm.anchor_bodies = lost_hints, anchor_bodies
     asm.inlined = inlined + [n for d in dropped_contracts for n in d['notes']]
     asm.dropped_contracts = dropped_contracts
+    asm.param_renames = param_renames
     asm.all_fn_keys = sorted({k.split('#', 1)[1] for k in tr.get('all_fn_keys', [])})
     asm.borrowed = borrowed
     asm.spec_region = (spec_region_start, spec_region_end)
